@@ -54,6 +54,7 @@ pub fn oracle(sc: &Scenario, obs: &mut Obs) -> CaseResult {
     let mut excused_window = 0usize;
     // a listed known finding desynchronised the key phases: what follows (silence, idle timeout) is its consequence
     let mut stepped = false;
+    let mut early_update = false;
     let mut max_gen = 0u16;
     let mut updates = 0usize;
     let mut undecryptable_excused = 0usize;
@@ -96,6 +97,27 @@ pub fn oracle(sc: &Scenario, obs: &mut Obs) -> CaseResult {
                     }
                 }
                 max_gen = max_gen.max(*g);
+                // the first rotation of a connection is the answer to an update the PEER initiated: the peer must have
+                // confirmed the handshake by then (RFC 9001 6.1: "An endpoint MUST NOT initiate a key update prior to
+                // having confirmed the handshake")
+                if *g >= 1 && !early_update {
+                    if let Some(ci) = conn_client(&out, r.ep, r.conn) {
+                        let peer_rotated_first = generation.iter().any(|((ep2, c2), g2)| *ep2 != r.ep && conn_client(&out, *ep2, *c2) == Some(ci) && *g2 >= *g);
+                        let peer_confirmed = confirmed.iter().any(|((ep2, c2), v)| *v && *ep2 != r.ep && conn_client(&out, *ep2, *c2) == Some(ci));
+                        if !peer_rotated_first && !peer_confirmed {
+                            early_update = true;
+                            let key_s = "c15:update-initiated-before-handshake-confirmed";
+                            if obs.step_over_known(key_s) {
+                                stepped = true;
+                            } else {
+                                return Err(Fail::new(
+                                    key_s,
+                                    format!("endpoint {} conn {} installed 1-RTT keys of generation {g} at t={}us in answer to a key update of its peer, which has not confirmed the handshake (key update after {:?} packets)", r.ep, r.conn, r.t_us, sc.key_update_after),
+                                ));
+                            }
+                        }
+                    }
+                }
                 // the peer's generation (same client): never more than one apart
                 if let Some(ci) = conn_client(&out, r.ep, r.conn) {
                     for ((ep2, c2), g2) in &generation {
